@@ -1,6 +1,7 @@
 import PgFdr.Proofs.C19
 import PgFdr.Proofs.C19Char
 import PgFdr.Proofs.C19Annot
+import PgFdr.Model.C18
 
 /-!
 # C19 — FASTA header fields and annotation columns are extracted exactly
@@ -492,5 +493,105 @@ example : ∃ d a, getAnnotations (some [composedFile [exRec1, exRec2, exRec3]])
   obtain ⟨d, a, h1, h2, -, -, -, -, -, h3, -, h4, -, -⟩ :=
     annotations_of_composed_record [] [exRec2, exRec3] exRec1 exGood true true (by simp [composedAnnotations])
   exact ⟨d, a, h1, h2, by rw [h4]; decide +kernel, by rw [h3]; decide +kernel⟩
+
+/-! ### the gene-level sentence and the methods of a run
+
+`get_protein_annotations` returns, next to the table, the flag `use_pseudo_genes`; it is all the method configurations
+of the run (`methods.get_methods(args.methods, use_pseudo_genes)`, modelled by `C18.parseAll` / `C18.parseMethod`, which
+the command-line model `Cli.setup` feeds with exactly this flag) ever see of the FASTA. -/
+
+/-- one method file parsed with the flag set: the configuration groups by pseudo-genes, whatever the file says -/
+theorem parseMethod_pseudo (t : Generated.MethodToml) (c : C18.Cfg) (h : C18.parseMethod true t = .ok c) :
+    c.grouping = .pseudoGene := by
+  unfold C18.parseMethod at h
+  simp only [if_true] at h
+  have hg : C18.parseGrouping "pseudo_gene" = some .pseudoGene := by decide
+  rw [hg] at h
+  repeat' split at h
+  all_goals (cases h <;> simp_all)
+
+/-- one method file parsed without the flag: the grouping is the one the file names -/
+theorem parseMethod_own (t : Generated.MethodToml) (c : C18.Cfg) (h : C18.parseMethod false t = .ok c) :
+    t.grouping.bind C18.parseGrouping = some c.grouping := by
+  unfold C18.parseMethod at h
+  simp only [Bool.false_eq_true, if_false] at h
+  repeat' split at h
+  all_goals (cases h <;> simp_all)
+
+/-- "… unless most records lack one, in which case pseudo-genes from shared peptides are used instead": the decision
+    is a function of the annotation table `d` alone (`2 * geneCount d ≤ d.length`: at most half of its entries carry a
+    gene name), and when it falls that way EVERY method configuration of the run — whatever grouping its file names:
+    `no`, `subset`, `rescued_subset`, the MaxQuant-native ones — is built with pseudo-gene grouping; when it falls the
+    other way (or the run is not gene-level) every configuration keeps the grouping of its file -/
+theorem fallback_applies_to_every_method (fs : List (List (List Char))) (cd uu : Bool) (d : Dict)
+    (hd : multiple (!cd) (if uu then IdRule.accession else IdRule.full) fs = .ok d) (hne : d ≠ [])
+    (table : List Generated.MethodToml) (ms : List C18.MethodRef) :
+    (2 * geneCount d ≤ d.length →
+      getAnnotations (some fs) cd true uu = .ok (d, true) ∧
+      ∀ cfgs, C18.parseAll table true ms = .ok cfgs → ∀ c ∈ cfgs, c.grouping = .pseudoGene) ∧
+    (∀ cfgs, C18.parseAll table false ms = .ok cfgs →
+      ∀ c ∈ cfgs, ∃ t, t.grouping.bind C18.parseGrouping = some c.grouping ∧ C18.parseMethod false t = .ok c) := by
+  refine ⟨fun hle => ⟨(gene_level_switch fs cd uu d hd hne).2.1 hle, ?_⟩, ?_⟩
+  · induction ms with
+    | nil => intro cfgs h c hc; simp [C18.parseAll] at h; subst h; cases hc
+    | cons m r ih =>
+      intro cfgs h c hc
+      unfold C18.parseAll at h
+      cases hr : C18.resolve table m with
+      | error e => rw [hr] at h; cases h
+      | ok t =>
+        rw [hr] at h
+        simp only at h
+        cases hp : C18.parseMethod true t with
+        | error e => rw [hp] at h; cases h
+        | ok c0 =>
+          rw [hp] at h
+          simp only at h
+          cases hrest : C18.parseAll table true r with
+          | error e => rw [hrest] at h; cases h
+          | ok cs =>
+            rw [hrest] at h
+            simp only at h
+            injection h with h
+            subst h
+            rcases List.mem_cons.mp hc with rfl | hc'
+            · exact parseMethod_pseudo t _ hp
+            · exact ih cs hrest c hc'
+  · induction ms with
+    | nil => intro cfgs h c hc; simp [C18.parseAll] at h; subst h; cases hc
+    | cons m r ih =>
+      intro cfgs h c hc
+      unfold C18.parseAll at h
+      cases hr : C18.resolve table m with
+      | error e => rw [hr] at h; cases h
+      | ok t =>
+        rw [hr] at h
+        simp only at h
+        cases hp : C18.parseMethod false t with
+        | error e => rw [hp] at h; cases h
+        | ok c0 =>
+          rw [hp] at h
+          simp only at h
+          cases hrest : C18.parseAll table false r with
+          | error e => rw [hrest] at h; cases h
+          | ok cs =>
+            rw [hrest] at h
+            simp only at h
+            injection h with h
+            subst h
+            rcases List.mem_cons.mp hc with rfl | hc'
+            · exact ⟨t, parseMethod_own t _ hp, hp⟩
+            · exact ih cs hrest c hc'
+
+/-- non-vacuity: two shipped method files, one with grouping `no` and one with `rescued_subset`, both parse, and with
+    the flag set both group by pseudo-genes -/
+example : ∃ cfgs, C18.parseAll Generated.methods true [.builtin "savitski", .builtin "picked_protein_group"] = .ok cfgs ∧
+    cfgs.map (·.grouping) = [.pseudoGene, .pseudoGene] := by
+  refine ⟨_, rfl, ?_⟩
+  decide
+example : ∃ cfgs, C18.parseAll Generated.methods false [.builtin "savitski", .builtin "picked_protein_group"] = .ok cfgs ∧
+    cfgs.map (·.grouping) = [.no, .rescuedSubset] := by
+  refine ⟨_, rfl, ?_⟩
+  decide
 
 end PgFdr.C19
